@@ -3,9 +3,7 @@
    operations a history is made of.  Executable definitions only.
 
    Interfaces, classes and instances are numbered by creation order.  Interface [i]'s direct
-   bases are [nth i g []]; ``zope.interface.Interface`` (the root every specification implies)
-   is left implicit: it is not one of the numbered interfaces and is filtered out of every
-   observation.  [ups g x] is the working definition of "the set of interfaces x isOrExtends"
+   bases are [nth i g []]; interface 0 is ``zope.interface.Interface`` itself (see [implied_by]).  [ups g x] is the working definition of "the set of interfaces x isOrExtends"
    = the interface members of x.__sro__ (C02/C03 are about that equality); it is proved equal
    to graph reachability in Proofs/Decl.v ([ups_iff_reach]). *)
 From Coq Require Import List Arith Bool.
@@ -42,6 +40,18 @@ Definition wf_igraph (g : igraph) : Prop := forall i b, In b (ibases g i) -> b <
 
 Definition wf_igraphb (g : igraph) : bool :=
   forallb (fun p => forallb (fun b => Nat.ltb b (fst p)) (snd p)) (combine (seq 0 (length g)) g).
+
+(* Interface 0 of every graph is ``zope.interface.Interface`` itself: every other interface
+   extends it (the generator gives it as base to the interfaces that name no base), and every
+   specification implies it, whatever is declared. *)
+Definition implied_by (fl : list iface) (x : iface) : bool := Nat.eqb x 0 || mem_nat x fl.
+(* what is not implied yet: the strip of Declaration._add_interfaces_to_cls *)
+Definition keepnew (fl : list iface) (l : list iface) : list iface :=
+  filter (fun x => negb (implied_by fl x)) l.
+(* the elision of _classImplements_ordered: the same, except that ``Interface`` itself is let
+   through while nothing is declared (``x is Interface and not spec.declared``) *)
+Definition celide (fl decl l : list iface) : list iface :=
+  filter (fun x => negb (implied_by fl x) || (Nat.eqb x 0 && match decl with [] => true | _ => false end)) l.
 
 (* keep the first occurrence of every element (the ``seen`` loops of
    _classImplements_ordered and Specification.interfaces) *)
